@@ -155,3 +155,12 @@ claim("C14",
       note="Bounded in token count (<=4), stop words (<=2), n (<=3); complete in the strings. The remainder of the vectorizers is scikit-learn code "
            "(assumed to treat tokens as opaque hashables ordered by sorted()).",
       technique="deductive verification against the dependency's own source (relational: two programs, one executor), z3 string theory")
+claim("C16",
+      text="Proof, bounded in the shape of the pipeline (single estimator, Pipeline, FeatureUnion in a Pipeline, ColumnTransformer with passthrough and a nested "
+           "Pipeline; depth <= 3), complete in the nested estimators and data: enumerate_pipeline_models (recursive generator, executed from the real source) "
+           "yields exactly the recursive specification enum(p, c) - parents first, each nested model once, distinct coordinates of length depth+1; "
+           "alter_pipeline_for_debugging: every replaced method of every leaf returns exactly the saved original's output on the same arguments and records "
+           "that input and output. Bounded: 8 real pipelines x 3 data schemas: pipeline2str lines, pipeline2dot parsed (declared endpoints/ports, acyclic, "
+           "steps and input columns present, outputs reachable, every input port used), wrappers transparent and chaining.",
+      note="pipeline2dot / _pipeline_info / pipeline2str are bounded only (not applicable to the proof). Shape bounded; estimator protocol assumed.",
+      technique="deductive verification on generic estimators per pipeline shape (generator semantics, closures, MethodType), z3")
